@@ -30,8 +30,8 @@ impl Property for C07 {
     }
     fn runs(&self, tier: Tier) -> u64 {
         match tier {
-            Tier::Quick => 400,
-            Tier::Thorough => 8000,
+            Tier::Quick => 800,
+            Tier::Thorough => 16000,
         }
     }
     fn rule(&self) -> &'static str {
